@@ -132,6 +132,9 @@ type CaseCfg struct {
 	// StrayOptimize: the general "optimize" key written directly into CompileOptions (1: true, 2: false) next to the four
 	// individual switches. Only Optimizations(...) and the directive interpret that name; in the map it selects nothing.
 	StrayOptimize int
+	// Pad: that many further variables, constants and operators are registered (names no expression uses): a Config
+	// the size of a real rule engine's. 0 lets buildConfig decide (one configuration in sixteen gets 70 of each).
+	Pad int
 }
 
 // EffectiveOpts: the optimization subset in force for the compilation.
@@ -227,6 +230,22 @@ func buildConfig(c CaseCfg, cfgRec *Recorder) *eval.Config {
 	for k, v := range c.Consts {
 		cc.ConstantMap[k] = copyVal(v)
 	}
+	// list constants named X and X_HEAD share one backing array when X_HEAD is a prefix of X (a caller's ranking and its head)
+	for k, v := range cc.ConstantMap {
+		if !strings.HasSuffix(k, "_HEAD") {
+			continue
+		}
+		switch head := v.(type) {
+		case []int64:
+			if all, ok := cc.ConstantMap[strings.TrimSuffix(k, "_HEAD")].([]int64); ok && len(head) <= len(all) && valEq(head, all[:len(head)]) {
+				cc.ConstantMap[k] = all[:len(head)]
+			}
+		case []string:
+			if all, ok := cc.ConstantMap[strings.TrimSuffix(k, "_HEAD")].([]string); ok && len(head) <= len(all) && valEq(head, all[:len(head)]) {
+				cc.ConstantMap[k] = all[:len(head)]
+			}
+		}
+	}
 	if c.Keys != nil {
 		for k, v := range c.Keys {
 			cc.VariableKeyMap[k] = v
@@ -239,6 +258,23 @@ func buildConfig(c CaseCfg, cfgRec *Recorder) *eval.Config {
 		}
 		for i, n := range c.VarNames {
 			cc.VariableKeyMap[n] = eval.VariableKey(i + base)
+		}
+	}
+	pad := c.Pad
+	if pad == 0 && c.Keys == nil && (hashStr(strings.Join(c.VarNames, ","))+uint64(c.Opts))%16 == 5 {
+		pad = 70
+	}
+	if pad > 0 {
+		next := eval.VariableKey(0)
+		for _, k := range cc.VariableKeyMap {
+			if k >= next {
+				next = k + 1
+			}
+		}
+		for i := 0; i < pad; i++ {
+			cc.VariableKeyMap[fmt.Sprintf("pad.var.%d", i)] = next + eval.VariableKey(i)
+			cc.ConstantMap[fmt.Sprintf("PAD_CONST_%d", i)] = int64(i)
+			cc.OperatorMap[fmt.Sprintf("pad_op_%d", i)] = padOperator
 		}
 	}
 	names := make([]string, 0, len(c.Custom))
@@ -277,6 +313,10 @@ func buildConfig(c CaseCfg, cfgRec *Recorder) *eval.Config {
 		cc.CostsMap[k] = v
 	}
 	return cc
+}
+
+func padOperator(*eval.Ctx, []eval.Value) (eval.Value, error) {
+	return nil, fmt.Errorf("harness: a padding operator was called")
 }
 
 func compileGuard(cc *eval.Config, src string) (*eval.Expr, Outcome) {
@@ -336,4 +376,36 @@ func tableGuard(v *Variant) string {
 	var s string
 	guard(func() (eval.Value, error) { s = eval.DumpTable(v.E, true); return nil, nil })
 	return s
+}
+
+// calibrateRef reads the radix of the version encoding off the engine (see refVersionBase in ref.go).
+func calibrateRef() {
+	defer func() { recover() }()
+	enc := func(src string) (int64, bool) {
+		e, err := eval.Compile(eval.NewConfig(), src)
+		if err != nil || e == nil {
+			return 0, false
+		}
+		v, err := e.Eval(eval.NewCtxFromVars(eval.NewConfig(), nil))
+		i, ok := v.(int64)
+		return i, ok && err == nil
+	}
+	b, ok := enc(`(+ 0 (t_version "1.0" 2))`)
+	if !ok || b < 10000 || b > 30000 {
+		return
+	}
+	for _, t := range []struct {
+		src  string
+		want int64
+	}{
+		{`(+ 0 (t_version "1.0.0" 3))`, b * b},
+		{`(+ 0 (t_version "1.0.0.0" 4))`, b * b * b},
+		{`(+ 0 (t_version "2.3.4"))`, 2*b*b + 3*b + 4},
+		{`(+ 0 (t_version "0.9999" 2))`, 9999},
+	} {
+		if v, ok := enc(t.src); !ok || v != t.want {
+			return
+		}
+	}
+	refVersionBase = b
 }
